@@ -14,7 +14,7 @@ import (
 
 var (
 	regFlags         = regexp.MustCompile(`flags=\(([^)]+)\)`)
-	regProfileHeader = regexp.MustCompile(` {\n`)
+	regProfileHeader = regexp.MustCompile(`(?m)^([^#\n]*) {\n`)
 )
 
 type SetFlags struct {
@@ -50,7 +50,7 @@ func (p SetFlags) Apply() ([]string, error) {
 
 				// Remove all flags definition, then set manifest' flags
 				out = regFlags.ReplaceAllLiteralString(out, "")
-				out = regProfileHeader.ReplaceAllLiteralString(out, flagsStr)
+				out = regProfileHeader.ReplaceAllString(out, "${1}"+flagsStr)
 				if err := file.WriteFile([]byte(out)); err != nil {
 					return res, err
 				}
